@@ -34,6 +34,85 @@ def expected_errors(lines):
     return exp, k, stripped
 
 
+def request(lines):
+    """The reader.run request (implementation and model) for one file, read in Silent mode."""
+    allf = [p for l in lines for p in l.rstrip("\r\n").split("\t")]
+    return {"op": "reader.run", "lines": lines, "mode": "Silent", "floats": float_table(allf)}
+
+
+def oracle(lines, i):
+    """The property on the implementation's answer `i` to a Silent read of `lines`: the failure dicts."""
+    from maflib.record import MafRecord
+    from maflib.validation import ValidationStringency as VS
+    failures = []
+    exp, k, stripped = expected_errors(lines)
+    got = i["errors"]
+    where = {"lines": lines}
+    # 1. header part
+    hgot = [e for e in got if e[0].startswith("HEADER_LINE") or e[0] in ("HEADER_DUPLICATE_KEYS", "HEADER_UNSUPPORTED_SORT_ORDER")]
+    hexp = [e for e in exp if e[1] is not None]
+    if hgot != hexp:
+        failures.append(dict(where, what="header-line errors are not numbered by their physical line", kind="header-line",
+                             expected=hexp, got=hgot))
+    # 2. column-name line
+    col_line = k + 1
+    for e in got:
+        if e[0] in ("SCHEME_MISMATCHING_NUMBER_OF_COLUMN_NAMES", "SCHEME_MISMATCHING_COLUMN_NAMES") and e[1] != col_line:
+            failures.append(dict(where, what="column-name error reported at line %s, the column line is line %d" % (e[1], col_line),
+                                 kind="column-line", got=e))
+            break
+        if e[0] == "HEADER_MISSING_COLUMN_NAMES" and e[1] != k + 1:
+            failures.append(dict(where, what="missing-column-names error reported at line %s, expected %d" % (e[1], k + 1),
+                                 kind="column-line", got=e))
+            break
+    # 3. data lines: errors of record j carry the physical number of its line
+    sch = None
+    if i.get("scheme"):
+        from maflib.schemes import NoRestrictionsScheme
+        a = i["scheme"]["annotation"]
+        sch = impl.scheme_by_annotation(a) or NoRestrictionsScheme(column_names=i["scheme"]["names"])
+    if i.get("iter_exc") is None and sch is not None:
+        for j, recj in enumerate(i["records"]):
+            phys = k + 2 + j
+            bad = [e for e in recj["errors"] if e[1] is not None and e[1] != phys]
+            if bad:
+                failures.append(dict(where, what="error of the record on physical line %d is reported at line %s" % (phys, bad[0][1]),
+                                     kind="data-line", got=bad[0]))
+                break
+            # the record's own diagnosis does not depend on where it stands
+            alone = MafRecord.from_line(stripped[phys - 1], scheme=sch, line_number=phys, validation_stringency=VS.Silent)
+            if [[e.tpe.name, e.line_number] for e in alone.validation_errors] != recj["errors"]:
+                failures.append(dict(where, what="record errors differ from the diagnosis of the same line alone", kind="data-line",
+                                     expected=[[e.tpe.name, e.line_number] for e in alone.validation_errors], got=recj["errors"]))
+                break
+    return failures
+
+
+def eval_read(r, m):
+    """One Silent read (shared by run and replay_case): executed on the implementation, compared with the model's answer `m`
+    (None = model not consulted) and, unless constructing the reader raised, judged by the oracle.
+    Returns (implementation answer, correspondence, failures or None); correspondence is None / "agree" / "unmodelled" /
+    "dontcare" / a disagreement dict; failures is None when the reader could not be constructed (nothing to judge)."""
+    lines = r["lines"]
+    i = impl.run(r)
+    corr = None
+    if m is not None:
+        corr = "agree"
+        if has_unmodelled(m):
+            corr = "unmodelled"
+        elif m != i:
+            from .. import colcases
+            if any(colcases.dontcare_numeric(p) or colcases.dontcare_uuid(p) for l in lines for f in l.split("\t") for p in [f] + f.split(";")):
+                corr = "dontcare"
+            else:
+                keys = [k for k in sorted(set(m) | set(i)) if m.get(k) != i.get(k)]
+                corr = {"op": "reader.run", "lines": lines, "mode": "Silent", "differs": keys,
+                        "model": {k: m.get(k) for k in keys if k != "records"}, "impl": {k: i.get(k) for k in keys if k != "records"}}
+    if "init_exc" in i:
+        return i, corr, None
+    return i, corr, oracle(lines, i)
+
+
 def run(ctx):
     out = Outcome()
     out.rule = ("file shapes with 0..5 header lines, column line present / absent / last, 0..4 data lines, defects injected at every kind of position "
@@ -49,73 +128,71 @@ def run(ctx):
             hdr = filecases.typical_header(rng, ann or "my-own-spec") + (filecases.header_lines(rng, rng.randrange(0, 3)) if rng.random() < 0.5 else [])
             rng.shuffle(hdr)
         lines = filecases.whole_file(rng, ann, header=hdr, col=rng.random() < 0.9, n_data=rng.choice([0, 0, 1, 2, 4]))
-        allf = [p for l in lines for p in l.rstrip("\r\n").split("\t")]
-        reqs.append({"op": "reader.run", "lines": lines, "mode": "Silent", "floats": float_table(allf)})
+        reqs.append(request(lines))
     mo = ctx.driver.run(reqs)
-    from maflib.record import MafRecord
-    from maflib.validation import ValidationStringency as VS
     for r, m in zip(reqs, mo):
         out.evaluations += 1
         lines = r["lines"]
-        i = impl.run(r)
-        if has_unmodelled(m):
+        i, corr, failures = eval_read(r, m)
+        if corr == "unmodelled":
             out.unmodelled += 1
-        elif m != i:
-            from .. import colcases
-            if any(colcases.dontcare_numeric(p) or colcases.dontcare_uuid(p) for l in lines for f in l.split("\t") for p in [f] + f.split(";")):
-                out.dontcare += 1
-            else:
-                keys = [k for k in sorted(set(m) | set(i)) if m.get(k) != i.get(k)]
-                out.disagreements.append({"op": "reader.run", "lines": lines, "mode": "Silent", "differs": keys,
-                                          "model": {k: m.get(k) for k in keys if k != "records"}, "impl": {k: i.get(k) for k in keys if k != "records"}})
-        if "init_exc" in i:
+        elif corr == "dontcare":
+            out.dontcare += 1
+        elif isinstance(corr, dict):
+            out.disagreements.append(corr)
+        if failures is None:
             continue
-        exp, k, stripped = expected_errors(lines)
+        out.failures += failures
         got = i["errors"]
-        where = {"lines": lines}
-        # 1. header part
-        hgot = [e for e in got if e[0].startswith("HEADER_LINE") or e[0] in ("HEADER_DUPLICATE_KEYS", "HEADER_UNSUPPORTED_SORT_ORDER")]
-        hexp = [e for e in exp if e[1] is not None]
-        if hgot != hexp:
-            out.failures.append(dict(where, what="header-line errors are not numbered by their physical line", kind="header-line",
-                                     expected=hexp, got=hgot))
-        # 2. column-name line
-        col_line = k + 1
-        for e in got:
-            if e[0] in ("SCHEME_MISMATCHING_NUMBER_OF_COLUMN_NAMES", "SCHEME_MISMATCHING_COLUMN_NAMES") and e[1] != col_line:
-                out.failures.append(dict(where, what="column-name error reported at line %s, the column line is line %d" % (e[1], col_line),
-                                         kind="column-line", got=e))
-                break
-            if e[0] == "HEADER_MISSING_COLUMN_NAMES" and e[1] != k + 1:
-                out.failures.append(dict(where, what="missing-column-names error reported at line %s, expected %d" % (e[1], k + 1),
-                                         kind="column-line", got=e))
-                break
-        # 3. data lines: errors of record j carry the physical number of its line
-        sch = None
-        if i.get("scheme"):
-            from maflib.schemes import NoRestrictionsScheme
-            a = i["scheme"]["annotation"]
-            sch = impl.scheme_by_annotation(a) or NoRestrictionsScheme(column_names=i["scheme"]["names"])
-        if i.get("iter_exc") is None and sch is not None:
-            for j, recj in enumerate(i["records"]):
-                phys = k + 2 + j
-                bad = [e for e in recj["errors"] if e[1] is not None and e[1] != phys]
-                if bad:
-                    out.failures.append(dict(where, what="error of the record on physical line %d is reported at line %s" % (phys, bad[0][1]),
-                                             kind="data-line", got=bad[0]))
-                    break
-                # the record's own diagnosis does not depend on where it stands
-                alone = MafRecord.from_line(stripped[phys - 1], scheme=sch, line_number=phys, validation_stringency=VS.Silent)
-                if [[e.tpe.name, e.line_number] for e in alone.validation_errors] != recj["errors"]:
-                    out.failures.append(dict(where, what="record errors differ from the diagnosis of the same line alone", kind="data-line",
-                                             expected=[[e.tpe.name, e.line_number] for e in alone.validation_errors], got=recj["errors"]))
-                    break
         if any(e[1] is not None for e in got):
             out.nontrivial.add(repr(lines))
         out.distribution["numbered_errors"] += sum(1 for e in got if e[1] is not None)
         if len(out.samples) < 4 and any(e[1] is not None for e in got):
             out.sample({"lines": [l[:60] for l in lines[:7]], "errors": got[:6]})
     return out
+
+
+KINDS = ("header-line", "column-line", "data-line")
+
+
+def replay_case(ctx, failure):
+    """Re-evaluate the stored failing input on the current implementation; return the list of failure dicts it
+    produces now (empty list = the property holds on that input)."""
+    lines = failure.get("lines")
+    if failure.get("kind") not in KINDS or not isinstance(lines, list):
+        return None
+    r = request(lines)
+    m = None
+    if ctx.driver.available():
+        try:
+            m = ctx.driver.run([r])[0]
+        except Exception as e:  # noqa
+            print("model: driver failed (%s)" % str(e)[:200])
+    i, corr, failures = eval_read(r, m)
+    print("executed: MafReader(lines=<%d lines>, validation_stringency=Silent), then iterated to the end" % len(lines))
+    for n, l in enumerate(lines[:12], start=1):
+        print("  line %d: %r" % (n, l[:100]))
+    if "init_exc" in i:
+        print("implementation: constructing the reader raised %s (nothing to judge)" % i["init_exc"])
+    else:
+        exp, k, _stripped = expected_errors(lines)
+        print("  %d header line(s); the column line is expected on line %d; expected numbered header errors %s" % (k, k + 1, [e for e in exp if e[1] is not None]))
+        print("implementation: reader errors %s" % i["errors"][:8])
+        for j, recj in enumerate(i["records"][:6]):
+            print("implementation: record on physical line %d has errors %s" % (k + 2 + j, recj["errors"][:4]))
+        if i.get("iter_exc"):
+            print("implementation: iteration raised %s" % i["iter_exc"])
+    if m is not None:
+        if corr == "unmodelled":
+            print("model:          input outside the model's domain")
+        else:
+            print("model:          reader errors %s" % (m.get("errors", m.get("init_exc")) if isinstance(m, dict) else m))
+            print("model vs implementation: %s" % (corr if isinstance(corr, str) else "differ in %s" % corr["differs"]))
+    for g in failures or []:
+        print("oracle: [%s] %s%s" % (g["kind"], g["what"], "; expected %s got %s" % (g["expected"], g["got"]) if "expected" in g else ""))
+    if not failures:
+        print("oracle: satisfied (every reported line number is the physical line of the text it is about)")
+    return failures or []
 
 
 def shrink(ctx, f):
